@@ -95,7 +95,7 @@ class SetModel:
             s = self.ctxs.get(frm)
             if s is None:
                 return
-            res, post, _ = self.tab.cells[(s, byte)]
+            res, post, _ = self.tab.cell(s, byte)
             if res != ('none',) or post is None:
                 self.ctx_problems.append((name, frm, byte, res))
                 return
@@ -108,13 +108,13 @@ class SetModel:
             follow('E1', 0xF0, 'E1 F0')
 
     def cell(self, cname, byte):
-        return self.tab.cells[(self.ctxs[cname], byte)]
+        return self.tab.cell(self.ctxs[cname], byte)
 
     def state_name(self, s):
         if s is None:
             return '-'
         names = [k or 'start' for k, v in self.ctxs.items() if v == s]
-        return '/'.join(names) if names else 'state#%d(%s)' % (s, self.ctx.dstates[s])
+        return '/'.join(names) if names else 'state[%s]' % self.tab.state_str(s)
 
 
 def build_models(ctx, rep):
@@ -125,9 +125,9 @@ def build_models(ctx, rep):
     rep.analysed['scancode_impls'] = [m.self_str for m in models]
     for m in models:
         rep.analysed[m.name] = {
-            'fn': m.tab.fn_path, 'path_classes': len(m.tab.leaves), 'cells': len(m.tab.cells),
-            'initial_state': ctx.dstates[m.init], 'reachable_states': sorted(ctx.dstates[s] for s in m.reach),
-            'contexts': {k or '(none)': ctx.dstates[v] for k, v in m.ctxs.items()},
+            'fn': m.tab.fn_path, 'path_classes': len(m.tab.leaves), 'state_fields': m.tab.state_atoms,
+            'initial_state': m.tab.state_str(m.init), 'reachable_states': sorted(m.tab.state_str(s) for s in m.reach),
+            'contexts': {k or '(none)': m.tab.state_str(v) for k, v in m.ctxs.items()},
             'engine': m.tab.engine_stats,
         }
     return models
@@ -205,11 +205,11 @@ def check_decode(ctx, rep, prop, kind, repo):
     for s, names in inv.items():
         if len(names) > 1:
             rep.finding('%s %s contexts-alias %s' % (prop, kind, '|'.join(names)),
-                        'distinct prefix histories %r lead to the same decoder state %s' % (names, ctx.dstates[s]))
+                        'distinct prefix histories %r lead to the same decoder state %s' % (names, m.tab.state_str(s)))
     for s in sorted(m.reach):
         if s not in inv:
-            rep.finding('%s %s reachable-extra-state %s' % (prop, kind, ctx.dstates[s]),
-                        'state %s is reachable but corresponds to no prefix context of the statement' % ctx.dstates[s])
+            rep.finding('%s %s reachable-extra-state %s' % (prop, kind, m.tab.state_str(s)),
+                        'state %s is reachable but corresponds to no prefix context of the statement' % m.tab.state_str(s))
     ncell = 0
     nontriv = set()
     for cname in want_ctx:
@@ -258,7 +258,7 @@ def check_resync(ctx, rep):
         nontriv = 0
         for s in sorted(m.reach):
             for byte in range(256):
-                res, post, li = t.cells[(s, byte)]
+                res, post, li = t.cell(s, byte)
                 if res[0] in ('ev', 'err'):
                     if post != m.init:
                         rep.ob('resync', 1, 0)
@@ -277,7 +277,7 @@ def check_resync(ctx, rep):
         none_edges = {}
         for s in m.reach:
             for byte in range(256):
-                res, post, _ = t.cells[(s, byte)]
+                res, post, _ = t.cell(s, byte)
                 if res == ('none',):
                     none_edges.setdefault(s, set()).add((post, byte))
         depth = {}
@@ -335,7 +335,7 @@ def count_streams(models, rep, n=4):
             nd = {}
             for s, cnt in dist.items():
                 for byte in range(256):
-                    res, post, _ = m.tab.cells[(s, byte)]
+                    res, post, _ = m.tab.cell(s, byte)
                     if post is None:
                         continue
                     if res[0] in ('ev', 'err') and post != m.init:
